@@ -2,14 +2,15 @@
 
 package rux
 
+import "sync"
+
 // Verification seams, disabled build: every function below is an identity or
 // a no-op that the compiler inlines away. See verif_on.go for the enabled side.
 
 func verifYield(string) {}
 
-func verifPoolGet(_ *Router, c *Context) *Context { return c }
-
-func verifPoolPut(_ *Router, c *Context) *Context { return c }
+// verifCtxPool is the type of Router.ctxPool: plainly sync.Pool in the normal build.
+type verifCtxPool = sync.Pool
 
 func verifOrder(_ string, items []string) []string { return items }
 
